@@ -13,12 +13,17 @@ VARIABLES l, bad, done, stats
 vars == <<l, bad, done, stats>>
 OccursAt(s, out, p) == \A k \in 1..Len(s) : out[p + k - 1] = s[k]
 Occurs(s, out) == Len(s) > 0 /\ Len(s) <= Len(out) /\ \E p \in 1..(Len(out) - Len(s) + 1) : OccursAt(s, out, p)
+\* a fragment of a secret is a leak too: any window of W consecutive characters of a secret of at least 2W characters
+\* (only the first and last 40 windows are tried, which covers truncated renderings such as %.8q)
+W == 6
+Windows(s) == LET n == Len(s) - W + 1 IN {k \in 1..n : k <= 40 \/ k > n - 40}
+PartOccurs(s, out) == Len(s) >= 2 * W /\ Len(out) >= W /\ \E k \in Windows(s) : Occurs(SubSeq(s, k, k + W - 1), out)
 OutSet(out) == {out[i] : i \in DOMAIN out}
 \* diagnostics are ASCII text and decimal numbers only
 Whys(e) ==
   IF e.op # "emit" THEN <<"H:unknown-op">>
   ELSE
-  <<IF e.out # <<>> /\ \E i \in DOMAIN e.secrets : Occurs(e.secrets[i], e.out)
+  <<IF e.out # <<>> /\ \E i \in DOMAIN e.secrets : Occurs(e.secrets[i], e.out) \/ PartOccurs(e.secrets[i], e.out)
       THEN "P:C18:a-password-candidate-word-or-separator-was-written-to-stdout-stderr-or-the-log" ELSE "ok",
     IF e.out # <<>> /\ \E i \in DOMAIN e.chars : e.chars[i] \in OutSet(e.out)
       THEN "P:C18:characters-of-the-recipes-alphabet-or-words-were-written-to-stdout-stderr-or-the-log" ELSE "ok">>
